@@ -17,8 +17,7 @@ def parseDamage : String → Option Damage
   | "twoPackages" => some .twoPackages | "typeMissing" => some .typeMissing | "wrongKind" => some .wrongKind
   | "notInFile" => some .notInFile | "restResults" => some .restResults | "exportedGetFlag" => some .exportedGetFlag
   | "manualBadParam" => some .manualBadParam | "manualTwice" => some .manualTwice | "formatFail" => some .formatFail
-  | "restParseFail" => some .restParseFail | "manualUnnamed" => some .manualUnnamed | "manualNoBody" => some .manualNoBody
-  | "valueRecv" => some .valueRecv | "setterIface" => some .setterIface | "univEmbed" => some .univEmbed
+  | "restParseFail" => some .restParseFail | "restAliasDup" => some .restAliasDup
   | _ => none
 
 def c18yn (b : Bool) : String := if b then "yes" else "no"
